@@ -675,7 +675,16 @@ def _two_phase(orig):
 
         def one(arg):
             k, g = arg
-            rem = None if timeout is None else max(15, timeout - (time.time() - t0))
+            rem = None if timeout is None else timeout - (time.time() - t0)
+            if rem is not None and rem < 12:             # a group that gets its thread after the deadline is not started
+                V = {}
+                for ins in g:
+                    v = {"verdict": "inconclusive", "step": "budget", "prec": ins.prec, "secs": 0.0, "file": "",
+                         "note": "time budget exhausted", "kind": ins.kind, "trivial": ins.trivial}
+                    v.update(ins.meta); V[ins.id] = v
+                P0 = dict(cert.DEFAULT_PARAMS); P0.update(tactic_params or {})
+                return {"verdicts": V, "cmds": [], "counts": {"pass": 0, "fail": 0, "inconclusive": len(g)},
+                        "dir": os.path.join(cert.CERT_ROOT, cert._safe(tag)), "params": P0, "wall_s": 0.0}
             return orig(g, tactic_params=tactic_params, jobs=1, timeout=rem, tag="%s_g%02d" % (tag, k), clean=clean)
         with ThreadPoolExecutor(max(1, jobs)) as ex:
             results = list(ex.map(one, list(enumerate(groups))))
@@ -685,7 +694,7 @@ def _two_phase(orig):
                "params": results[0]["params"]}
         for r in results:
             for v in r["verdicts"].values():
-                if v.get("file"):
+                if v.get("file") and r["dir"] != base:
                     v["file"] = os.path.join("..", os.path.basename(r["dir"]), v["file"])
             out["verdicts"].update(r["verdicts"])
             out["cmds"] += r["cmds"]
@@ -697,7 +706,7 @@ def _two_phase(orig):
 
 
 def run_kinds(rep, kinds, tier_, rng, n_quick, n_thorough, precs_quick, precs_thorough, assumptions, rule, not_decided,
-              params=None, budget_quick=110, budget_thorough=1080, jobs=None):
+              params=None, budget_quick=100, budget_thorough=1050, jobs=None):
     """the whole run() of a C18-C23 module"""
     load_known_b3(rep)
     ensure_meta()
